@@ -27,6 +27,12 @@
 (*   modcache_key_textual  the module cache is keyed by the textual name   *)
 (*   loadcss_unlock_early  meta.load-css releases the lock BEFORE the      *)
 (*                         loaded body is evaluated                         *)
+(* An @import evaluates its file into a css holder of its own (CssData::new *)
+(* in Item::Import) with its own module cache: the CSS of modules used by   *)
+(* an imported file is included at the import, also when the module was     *)
+(* loaded before (sass-spec directives/use/css/import pins this).  So        *)
+(* "initialised once" holds per css holder, and per compilation for graphs *)
+(* without @import.                                                         *)
 (***************************************************************************)
 EXTENDS Integers, Sequences, FiniteSets, TLC
 
@@ -42,7 +48,9 @@ VARIABLES
   modcache,  \* set of cache keys         (CssData.modules)
   result,    \* "run" | "ok" | "loop" | "overflow"
   execs,     \* [Files -> Nat]  how often each file's body was evaluated
-  modinits   \* [Files -> Nat]  how often each file was initialised as a module
+  modinits,  \* [Files -> Nat]  how often each file was initialised as a module
+  calls,     \* number of Loader::find_file calls made so far
+  fault      \* [at |-> n, kind |-> "find" | "read"]: the n-th loader call fails (at = 0: never)
 
 Kinds     == {"use", "forward", "import", "loadcss"}
 Spellings == {"plain", "dot", "dd"}
@@ -70,7 +78,7 @@ Canon(name) == Norm(name, <<>>)
 LockKey(name)  == IF "lock_key_textual" \in Dev THEN name ELSE Canon(name)
 CacheKey(name) == IF "modcache_key_textual" \in Dev THEN name ELSE Canon(name)
 
-lvars == <<Dev, prog, stack, loading, modcache, result, execs, modinits>>
+lvars == <<Dev, prog, stack, loading, modcache, result, execs, modinits, calls, fault>>
 
 Frame(f, name, kind, locked) ==
   [file |-> f, name |-> name, pc |-> 1, kind |-> kind, locked |-> locked, phase |-> "at"]
@@ -87,31 +95,59 @@ RunInit(p) ==
   /\ execs = [f \in Files |-> IF f = Root THEN 1 ELSE 0]
   /\ modinits = [f \in Files |-> 0]
 
+(* the CssData that holds the module cache: the innermost enclosing        *)
+(* @import frame, otherwise the root holder                                 *)
+CssHead == LET S == {i \in DOMAIN stack : stack[i].kind = "import"} IN
+           IF S = {} THEN 0 ELSE CHOOSE i \in S : \A j \in S : j <= i
+CKey(name) == <<CssHead, CacheKey(name)>>
+
 Running == result = "run" /\ stack # <<>>
 AtStmt  == Running /\ Top.phase = "at" /\ Top.pc <= Len(prog[Top.file])
 Stmt    == prog[Top.file][Top.pc]
-TgtName == Rel(Top.name, Url(Stmt))
+(* the name under which the loaded file is known: the importer's directory  *)
+(* joined with the URL, normalised (only the textual deviations keep the   *)
+(* spelling)                                                                *)
+TgtName == IF Dev \cap {"lock_key_textual", "modcache_key_textual"} # {}
+           THEN Rel(Top.name, Url(Stmt))
+           ELSE Canon(Rel(Top.name, Url(Stmt)))
 
 (* Context::lock_loading, reached from find_file: the file is found, read   *)
 (* and locked under its key; a key that is already present is a loop.       *)
-LockLoop == /\ AtStmt
+(* the loader calls one load statement makes: the generated files are named *)
+(* `<t>.scss`, which is candidate 1 for @use/@forward/load-css and          *)
+(* candidate 3 (after <t>.import.scss and _<t>.import.scss) for @import     *)
+NCalls(k) == IF k = "import" THEN 3 ELSE 1
+(* does the armed fault hit this load?  A lookup fault fails whichever call *)
+(* it is armed on; a read fault only matters on the call that finds a file  *)
+FaultHits == /\ fault.at > calls /\ fault.at <= calls + NCalls(Stmt.kind)
+             /\ (fault.kind = "find" \/ fault.at = calls + NCalls(Stmt.kind))
+
+(* Loader failure while looking up or reading the file: reported as an error *)
+LoadFault == /\ AtStmt /\ FaultHits
+             /\ result' = "err"
+             /\ calls' = fault.at
+             /\ UNCHANGED <<Dev, fault, prog, stack, loading, modcache, execs, modinits>>
+
+LockLoop == /\ AtStmt /\ ~FaultHits
             /\ LockKey(TgtName) \in loading
             /\ result' = "loop"
-            /\ UNCHANGED <<Dev, prog, stack, loading, modcache, execs, modinits>>
+            /\ calls' = calls + NCalls(Stmt.kind)
+            /\ UNCHANGED <<Dev, fault, prog, stack, loading, modcache, execs, modinits>>
 
-Lock == /\ AtStmt
+Lock == /\ AtStmt /\ ~FaultHits
         /\ LockKey(TgtName) \notin loading
         /\ loading' = loading \cup {LockKey(TgtName)}
         /\ stack' = SetTop([Top EXCEPT !.phase = "locked"])
-        /\ UNCHANGED <<Dev, prog, modcache, result, execs, modinits>>
+        /\ calls' = calls + NCalls(Stmt.kind)
+        /\ UNCHANGED <<Dev, fault, prog, modcache, result, execs, modinits>>
 
 Locked == Running /\ Top.phase = "locked"
 
 (* CssData::load_module: cached module, no evaluation; then unlock.         *)
 CacheHit == /\ Locked /\ IsModuleKind(Stmt.kind)
-            /\ CacheKey(TgtName) \in modcache
+            /\ CKey(TgtName) \in modcache
             /\ stack' = SetTop([Top EXCEPT !.phase = "unlock"])
-            /\ UNCHANGED <<Dev, prog, loading, modcache, result, execs, modinits>>
+            /\ UNCHANGED <<Dev, fault, calls, prog, loading, modcache, result, execs, modinits>>
 
 Push(kind, locked) ==
   IF Len(stack) >= MaxDepth
@@ -123,14 +159,14 @@ Push(kind, locked) ==
        /\ UNCHANGED result
 
 InitStart == /\ Locked /\ IsModuleKind(Stmt.kind)
-             /\ CacheKey(TgtName) \notin modcache
+             /\ CKey(TgtName) \notin modcache
              /\ Push(Stmt.kind, TRUE)
              /\ modinits' = [modinits EXCEPT ![Stmt.target] = @ + 1]
-             /\ UNCHANGED <<Dev, prog, loading, modcache>>
+             /\ UNCHANGED <<Dev, fault, calls, prog, loading, modcache>>
 
 EnterImport == /\ Locked /\ Stmt.kind = "import"
                /\ Push("import", TRUE)
-               /\ UNCHANGED <<Dev, prog, loading, modcache, modinits>>
+               /\ UNCHANGED <<Dev, fault, calls, prog, loading, modcache, modinits>>
 
 (* meta.load-css: ideally the lock is held while the body runs; the pinned *)
 (* tree unlocks first (sass/mixin.rs) and evaluates the body afterwards.   *)
@@ -140,7 +176,7 @@ EnterLoadCss == /\ Locked /\ Stmt.kind = "loadcss"
                         /\ Push("loadcss", FALSE)
                    ELSE /\ Push("loadcss", TRUE)
                         /\ UNCHANGED loading
-                /\ UNCHANGED <<Dev, prog, modcache, modinits>>
+                /\ UNCHANGED <<Dev, fault, calls, prog, modcache, modinits>>
 
 (* end of a loaded file's body: back to the loading statement               *)
 Leave == /\ Running /\ Len(stack) > 1 /\ Top.phase = "at" /\ Top.pc > Len(prog[Top.file])
@@ -148,27 +184,30 @@ Leave == /\ Running /\ Len(stack) > 1 /\ Top.phase = "at" /\ Top.pc > Len(prog[T
                 parent == stack[Len(stack) - 1] IN
             /\ stack' = [SubSeq(stack, 1, Len(stack) - 1) EXCEPT ![Len(stack) - 1] =
                             [parent EXCEPT !.phase = IF child.locked THEN "unlock" ELSE "next"]]
-            /\ modcache' = IF IsModuleKind(child.kind) THEN modcache \cup {CacheKey(child.name)} ELSE modcache
-         /\ UNCHANGED <<Dev, prog, loading, result, execs, modinits>>
+            /\ modcache' = IF IsModuleKind(child.kind) THEN modcache \cup {CKey(child.name)}
+                            ELSE IF child.kind = "import"
+                                 THEN {k \in modcache : k[1] # Len(stack)}   \* its private holder dies with it
+                                 ELSE modcache
+         /\ UNCHANGED <<Dev, fault, calls, prog, loading, result, execs, modinits>>
 
 (* Context::unlock_loading *)
 Unlock == /\ Running /\ Top.phase = "unlock"
           /\ loading' = loading \ {LockKey(TgtName)}
           /\ stack' = SetTop([Top EXCEPT !.phase = "at", !.pc = @ + 1])
-          /\ UNCHANGED <<Dev, prog, modcache, result, execs, modinits>>
+          /\ UNCHANGED <<Dev, fault, calls, prog, modcache, result, execs, modinits>>
 
 Advance == /\ Running /\ Top.phase = "next"
            /\ stack' = SetTop([Top EXCEPT !.phase = "at", !.pc = @ + 1])
-           /\ UNCHANGED <<Dev, prog, loading, modcache, result, execs, modinits>>
+           /\ UNCHANGED <<Dev, fault, calls, prog, loading, modcache, result, execs, modinits>>
 
 (* Context::transform: root body done, unlock root, write the output        *)
 Return == /\ Running /\ Len(stack) = 1 /\ Top.phase = "at" /\ Top.pc > Len(prog[Root])
           /\ result' = "ok"
           /\ loading' = loading \ {LockKey(<<Root>>)}
           /\ stack' = <<>>
-          /\ UNCHANGED <<Dev, prog, modcache, execs, modinits>>
+          /\ UNCHANGED <<Dev, fault, calls, prog, modcache, execs, modinits>>
 
-RunNext == LockLoop \/ Lock \/ CacheHit \/ InitStart \/ EnterImport \/ EnterLoadCss
+RunNext == LoadFault \/ LockLoop \/ Lock \/ CacheHit \/ InitStart \/ EnterImport \/ EnterLoadCss
            \/ Leave \/ Unlock \/ Advance \/ Return
 
 ---------------------------------------------------------------------------
@@ -200,8 +239,15 @@ DepthBound == Dev = {} => (Len(stack) <= Cardinality(Files) /\ Cardinality(Stack
 LoopOnlyOnCycle == (Dev = {} /\ result = "loop") => HasReachableCycle(prog)
 NeverOverflow   == Dev = {} => result # "overflow"
 
+(* a loader failure is never absorbed: once the armed call has been made   *)
+(* the compilation is over, with an error                                   *)
+(* (a read fault armed on a call that finds no file cannot be observed)      *)
+FaultReported == (fault.at > 0 /\ fault.kind = "find" /\ calls >= fault.at) => result = "err"
+NoErrWithoutFault == result = "err" => (fault.at > 0 /\ calls = fault.at)
+
 (* each module is initialised at most once per compilation                 *)
-InitOnce == Dev = {} => \A f \in Files : modinits[f] <= 1
+NoImports(p) == \A f \in Files : \A i \in DOMAIN p[f] : p[f][i].kind # "import"
+InitOnce == (Dev = {} /\ NoImports(prog)) => \A f \in Files : modinits[f] <= 1
 (* and conversely a compilation that succeeds has met no cycle              *)
 OkOnlyAcyclic == (Dev = {} /\ result = "ok") => ~HasReachableCycle(prog)
 =============================================================================
